@@ -79,10 +79,10 @@ Lemma skip_space_len : forall s, (length (skip_space s) <= length s)%nat.
 Proof. intros s. apply skip_while_len. Qed.
 
 (* one iteration consumes at least one character *)
-Lemma part_step_progress : forall c num r nt c2 r2 nt2,
-  cur c <> 0 -> part_step c num r nt = Some (c2, r2, nt2) -> (length c2 < length c)%nat.
+Lemma part_step_raw_progress : forall c num r nt c2 r2 nt2,
+  cur c <> 0 -> part_step_raw c num r nt = Some (c2, r2, nt2) -> (length c2 < length c)%nat.
 Proof.
-  intros c num r nt c2 r2 nt2 Hc H. unfold part_step, part_body in H.
+  intros c num r nt c2 r2 nt2 Hc H. unfold part_step_raw, part_body in H.
   (* sign *)
   set (sgn := (cur c =? 43) || (cur c =? 45)) in *.
   assert (Hadv : (length (skip_space (adv c)) < length c)%nat).
@@ -213,6 +213,10 @@ Proof.
         match type of H with (if ?b then _ else _) = _ => destruct b end; [discriminate|]. inversion H; subst; lia.
       * cbn in H. inversion H; subst; lia.
 Qed.
+
+Lemma part_step_progress : forall c num r nt c2 r2 nt2,
+  cur c <> 0 -> part_step c num r nt = Some (c2, r2, nt2) -> (length c2 < length c)%nat.
+Proof. intros c num r nt c2 r2 nt2 Hc H. apply (part_step_raw_progress c num r nt c2 r2 nt2 Hc). apply part_step_raw_of. exact H. Qed.
 
 Lemma part_loop_fuel : forall fuel c num r nt, (length c < fuel)%nat ->
   part_loop fuel c num r nt <> OutOfFuel.
